@@ -904,6 +904,19 @@ pub fn classify_infos(c: &SqlCase, ev: &Ev, msg: &str) -> Option<&'static str> {
     if infos.iter().any(|i| i.level >= 2 && i.refs_outermost) {
         return Some("nested-subquery-skip-level-correlation");
     }
+    // K13: the ROW-BY-ROW executor (the plan without decorrelation) and a correlated subquery that
+    // contains a nested subquery of any kind: the nested subquery is evaluated in the wrong scope
+    // (no rows / wrong rows) while the production plan answers like the reference
+    if differential && msg.contains("production answer matches the reference") && infos.iter().any(|i| i.level == 1 && i.has_nested && i.correlated()) {
+        return Some("rowbyrow-nested-subquery");
+    }
+    // K8c: the skip-level reference sits in the OPERAND of a nested predicate: a correlated
+    // subquery whose non-equality correlation contains a nested subquery, e.g.
+    // EXISTS (SELECT .. WHERE t1.a = x2.a AND t1.b IN (SELECT x3.a ..)) — the nested IN is
+    // uncorrelated itself, its left operand belongs to the outermost block
+    if infos.iter().any(|i| i.level == 1 && i.has_nested && i.corr_other) && infos.iter().any(|i| i.level >= 2) {
+        return Some("nested-subquery-skip-level-correlation");
+    }
     // K12: correlated scalar MIN/MAX over a DATE / VARCHAR column (row-by-row result conversion)
     if infos.iter().any(|i| i.kind == "scalar" && matches!(i.agg, Some(AggF::Min | AggF::Max)) && i.agg_arg_non_numeric && i.correlated()) {
         return Some("rowbyrow-scalar-date-or-string-result");
@@ -937,7 +950,12 @@ pub fn classify_infos(c: &SqlCase, ev: &Ev, msg: &str) -> Option<&'static str> {
 
 fn classify_with(c: &SqlCase, ev: &Ev, msg: &str) -> Option<&'static str> {
     // the shared signatures, except the coarse "any correlated subquery" one this property refines
-    classify_infos(c, ev, msg).or_else(|| crate::kf_sql::SIGS.iter().filter(|s| s.id != "correlated-subquery").find(|s| (s.pred)(c, ev)).map(|s| s.id))
+    // (among the shared signatures the case meets, one that is listed OPEN for this property wins
+    // over one that is fixed: see runner::is_open_id)
+    classify_infos(c, ev, msg).or_else(|| {
+        let hits: Vec<&crate::kf_sql::Sig> = crate::kf_sql::SIGS.iter().filter(|s| s.id != "correlated-subquery").filter(|s| (s.pred)(c, ev)).collect();
+        hits.iter().find(|s| crate::runner::is_open_id(s.id)).or(hits.first()).map(|s| s.id)
+    })
 }
 
 // ---------------------------------------------------------------------------
